@@ -70,7 +70,13 @@ pub fn scenario_word(w: u16, verbose: bool) -> bool {
 /// `nbits` (<= 24) bits taken LSB-first from `bits` are shifted into a fresh decoder; clear() is called before bit
 /// number `clear_at` (if < nbits). Every result is compared with the bit-serial specification.
 pub fn scenario_bits(bits: u32, nbits: u8, clear_at: u8, verbose: bool) -> bool {
-    let mut d = Ps2Decoder::new();
+    // bit 7 of `nbits` selects the other public constructor, `Default::default()`
+    let via_default = nbits & 0x80 != 0;
+    let nbits = nbits & 0x7F;
+    let mut d = if via_default { <Ps2Decoder as Default>::default() } else { Ps2Decoder::new() };
+    if via_default {
+        say!(verbose, "decoder constructed with Ps2Decoder::default()");
+    }
     let mut st: (u8, u16) = (0, 0);
     let mut ok = true;
     let mut i: u8 = 0;
@@ -207,8 +213,14 @@ pub fn x_set1_out(c: XCtx, b: u8) -> Option<Result<Option<KeyEvent>, Error>> {
 
 /// up to four bytes into a fresh real decoder of the given set, compared with the prefix automaton over the reference tables
 pub fn scenario_stream(set: u8, bytes: [u8; 4], n: u8, verbose: bool) -> bool {
-    let mut d1 = ScancodeSet1::new();
-    let mut d2 = ScancodeSet2::new();
+    // bit 7 of `n` selects the other public constructor, `Default::default()`
+    let via_default = n & 0x80 != 0;
+    let n = n & 0x7F;
+    let mut d1 = if via_default { <ScancodeSet1 as Default>::default() } else { ScancodeSet1::new() };
+    let mut d2 = if via_default { <ScancodeSet2 as Default>::default() } else { ScancodeSet2::new() };
+    if via_default {
+        say!(verbose, "decoder constructed with Default::default()");
+    }
     let mut c = XCtx::Start;
     let mut ok = true;
     let mut i = 0usize;
@@ -223,7 +235,10 @@ pub fn scenario_stream(set: u8, bytes: [u8; 4], n: u8, verbose: bool) -> bool {
                 let got = std::panic::catch_unwind(std::panic::AssertUnwindSafe(|| if set == 1 { d1.advance_state(b) } else { d2.advance_state(b) }));
                 match got {
                     Ok(v) => v,
-                    Err(_) => {
+                    Err(p) => {
+                        if crate::panic_only() {
+                            std::panic::resume_unwind(p);
+                        }
                         say!(verbose, "step {}: Set {} byte 0x{:02X} in context {:?} -> PANIC{}", i, set, b, c, if e.is_none() { "   (output unconstrained here)" } else { "   <-- MISMATCH" });
                         return ok && e.is_none();
                     }
